@@ -367,7 +367,7 @@ def multi_cases(rng, uni, n, violations):
                     s["values"] = [zero] * len(s["values"])
                     if s["values"] and rng.random() < 0.55:
                         i = rng.randrange(len(s["values"]))
-                        s["values"][i] = (not zero) if kind == "bool" else rng.choice([base + 2.0 ** -20, base + 2.0 ** -4, base - 0.25, 1.0, INF, -INF])
+                        s["values"][i] = (not zero) if kind == "bool" else rng.choice([base + 2.0 ** -20, base + 2.0 ** -30, base + 2.0 ** -40, base + 2.0 ** -4, base - 0.25, -2.0 ** -30, 1.0, INF, -INF])
             if presence in ("both", "a"): blocks_a[k] = st
             if presence in ("both", "b"): blocks_b[k] = su
         a = MultiTensor(shapes, sr); b = MultiTensor(shapes, sr)
